@@ -16,6 +16,18 @@
 //	oiTAG:V:D / niTAG:D         [tag]{INTEGER V} / nothing  <-> ReadOptionalASN1Integer(default D)
 //	osTAG:HEX / nsTAG           [tag]{OCTET STRING} / nothing <-> ReadOptionalASN1OctetString
 //	ob:V:D / nb:D               BOOLEAN / nothing            <-> ReadOptionalASN1Boolean(default D)
+//	sk:HEX  cp:HEX              AddBytes            <-> Skip(len) / CopyBytes(out[:len])      (value `~` / HEX)
+//	elTAG:HEX anTAG:HEX aeTAG:HEX  AddASN1(tag){AddBytes} <-> ReadASN1Element / ReadAnyASN1 / ReadAnyASN1Element
+//	                            (values: element hex / `tag#body` / `tag#element`)
+//	ksTAG:HEX koTAG:HEX knTAG   element / element / nothing <-> SkipASN1 / SkipOptionalASN1 (`~` / `+` / `-`)
+//	bb:HEX                      AddASN1BitString    <-> ReadASN1BitStringAsBytes
+//	se                          SetError(non-nil error): nothing is read
+//	v[ … ]  vf[ … ]             AddValue(v) where v.Marshal makes the calls of the body on the Builder it is given and
+//	                            returns nil / an error; read back inline
+//
+// `c21 bw <prog>`: builder-only programs (no mirrored reader): b:HEX (AddBytes), uw:N (Unwrite), se (SetError),
+// p1[ … ] … p4[ … ], aTAG[ … ]; output `panic` | `builderr` | <bytes>. T3 = an independent block-accumulating
+// reference (Unwrite drops the last N bytes of the current block, panics when the block holds fewer).
 //
 // Output: `builderr` | `<bytes> readfail` | `<bytes> ok <v;v;…> <unread rest>`.
 package c21
@@ -200,10 +212,77 @@ func write(b *cryptobyte.Builder, prog []op, exp *[]string) {
 			*exp = append(*exp, o.a)
 		case "nb":
 			*exp = append(*exp, o.a)
+		case "sk":
+			b.AddBytes(zv.UnHex(o.a))
+			*exp = append(*exp, "~")
+		case "cp":
+			b.AddBytes(zv.UnHex(o.a))
+			*exp = append(*exp, hx(zv.UnHex(o.a)))
+		case "el", "an", "ae", "ks", "ko":
+			body := zv.UnHex(o.a)
+			b.AddASN1(cbasn1.Tag(o.tag), func(c *cryptobyte.Builder) { c.AddBytes(body) })
+			switch o.kind {
+			case "el":
+				*exp = append(*exp, hx(refElement(o.tag, body)))
+			case "an":
+				*exp = append(*exp, fmt.Sprintf("%d#%s", o.tag, hx(body)))
+			case "ae":
+				*exp = append(*exp, fmt.Sprintf("%d#%s", o.tag, hx(refElement(o.tag, body))))
+			case "ks":
+				*exp = append(*exp, "~")
+			case "ko":
+				*exp = append(*exp, "+")
+			}
+		case "kn":
+			*exp = append(*exp, "-")
+		case "bb":
+			b.AddASN1BitString(zv.UnHex(o.a))
+			*exp = append(*exp, hx(zv.UnHex(o.a)))
+		case "se":
+			b.SetError(errSet)
+		case "v[", "vf[":
+			b.AddValue(marshaler{body: o.body, exp: exp, fail: o.kind == "vf["})
 		default:
 			panic("bad op " + o.kind)
 		}
 	}
+}
+
+var errSet = fmt.Errorf("c21: SetError")
+var errMarshal = fmt.Errorf("c21: Marshal failed")
+
+// marshaler is the MarshalingValue of the `v[`/`vf[` ops: its Marshal makes the calls of body on the Builder it is given.
+type marshaler struct {
+	body []op
+	exp  *[]string
+	fail bool
+}
+
+func (m marshaler) Marshal(b *cryptobyte.Builder) error {
+	write(b, m.body, m.exp)
+	if m.fail {
+		return errMarshal
+	}
+	return nil
+}
+
+// refElement: independent reference for tag + minimal DER length + body (T3 expectation of ReadASN1Element / ReadAnyASN1Element).
+func refElement(tag int, body []byte) []byte {
+	out := []byte{byte(tag)}
+	n := len(body)
+	switch {
+	case n < 0x80:
+		out = append(out, byte(n))
+	case n <= 0xff:
+		out = append(out, 0x81, byte(n))
+	case n <= 0xffff:
+		out = append(out, 0x82, byte(n>>8), byte(n))
+	case n <= 0xffffff:
+		out = append(out, 0x83, byte(n>>16), byte(n>>8), byte(n))
+	default:
+		out = append(out, 0x84, byte(n>>24), byte(n>>16), byte(n>>8), byte(n))
+	}
+	return append(out, body...)
 }
 
 // Read modes. Every program is read back once per mode and all modes must report the same values and
@@ -584,6 +663,73 @@ func (r *rd) read(s *cryptobyte.String, prog []op) bool {
 				return false
 			}
 			r.vals = append(r.vals, tf(*v))
+		case "sk":
+			if !s.Skip(len(zv.UnHex(o.a))) {
+				return false
+			}
+			r.vals = append(r.vals, "~")
+		case "cp":
+			out := make([]byte, len(zv.UnHex(o.a)))
+			if r.poisoned() {
+				for i := range out {
+					out[i] = 0xa5
+				}
+			}
+			if !s.CopyBytes(out) {
+				return false
+			}
+			r.vals = append(r.vals, hx(out))
+		case "el":
+			c := r.pStr()
+			if !s.ReadASN1Element(c, cbasn1.Tag(o.tag)) {
+				return false
+			}
+			r.vals = append(r.vals, hx(*c))
+		case "an", "ae":
+			c := r.pStr()
+			var t cbasn1.Tag
+			if r.poisoned() {
+				t = 0xa5
+			}
+			ok := false
+			if o.kind == "an" {
+				ok = s.ReadAnyASN1(c, &t)
+			} else {
+				ok = s.ReadAnyASN1Element(c, &t)
+			}
+			if !ok {
+				return false
+			}
+			r.vals = append(r.vals, fmt.Sprintf("%d#%s", int(t), hx(*c)))
+		case "ks":
+			if !s.SkipASN1(cbasn1.Tag(o.tag)) {
+				return false
+			}
+			r.vals = append(r.vals, "~")
+		case "ko", "kn":
+			if o.kind == "kn" {
+				r.absent(s, o.tag)
+			}
+			before := len(*s)
+			if !s.SkipOptionalASN1(cbasn1.Tag(o.tag)) {
+				return false
+			}
+			if len(*s) != before { // an element is at least two bytes long
+				r.vals = append(r.vals, "+")
+			} else {
+				r.vals = append(r.vals, "-")
+			}
+		case "bb":
+			v := r.pBytes()
+			if !s.ReadASN1BitStringAsBytes(v) {
+				return false
+			}
+			r.vals = append(r.vals, hx(*v))
+		case "se":
+		case "v[", "vf[":
+			if !r.read(s, o.body) {
+				return false
+			}
 		default:
 			panic("bad op " + o.kind)
 		}
@@ -675,8 +821,178 @@ func joinVals(v []string) string {
 	return strings.Join(v, ";")
 }
 
+// ---------- builder-only programs ----------
+
+func writeB(b *cryptobyte.Builder, prog []op) {
+	for _, o := range prog {
+		o := o
+		switch o.kind {
+		case "b":
+			b.AddBytes(zv.UnHex(o.a))
+		case "uw":
+			b.Unwrite(int(atoi64(o.a)))
+		case "se":
+			b.SetError(errSet)
+		case "p1[":
+			b.AddUint8LengthPrefixed(func(c *cryptobyte.Builder) { writeB(c, o.body) })
+		case "p2[":
+			b.AddUint16LengthPrefixed(func(c *cryptobyte.Builder) { writeB(c, o.body) })
+		case "p3[":
+			b.AddUint24LengthPrefixed(func(c *cryptobyte.Builder) { writeB(c, o.body) })
+		case "p4[":
+			b.AddUint32LengthPrefixed(func(c *cryptobyte.Builder) { writeB(c, o.body) })
+		case "a[":
+			b.AddASN1(cbasn1.Tag(o.tag), func(c *cryptobyte.Builder) { writeB(c, o.body) })
+		default:
+			panic("bad op " + o.kind)
+		}
+	}
+}
+
+// refB: reference semantics on plain slices. Returns the block content and "" | "err" | "panic". After an error every
+// call is a no-op (it cannot panic any more); a panic ends everything.
+func refB(prog []op, acc []byte, st *string) []byte {
+	for _, o := range prog {
+		if *st != "" {
+			return acc
+		}
+		switch o.kind {
+		case "b":
+			acc = append(acc, zv.UnHex(o.a)...)
+		case "uw":
+			n := int(atoi64(o.a))
+			if n > len(acc) {
+				*st = "panic"
+				return acc
+			}
+			acc = acc[:len(acc)-n]
+		case "se":
+			*st = "err"
+		case "p1[", "p2[", "p3[", "p4[":
+			w := int(o.kind[1] - '0')
+			c := refB(o.body, nil, st)
+			if *st != "" {
+				return acc
+			}
+			if w < 8 && len(c) >= 1<<(8*uint(w)) {
+				*st = "err"
+				return acc
+			}
+			for i := w - 1; i >= 0; i-- {
+				acc = append(acc, byte(len(c)>>(8*uint(i))))
+			}
+			acc = append(acc, c...)
+		case "a[":
+			if o.tag&0x1f == 0x1f {
+				*st = "err"
+				return acc
+			}
+			c := refB(o.body, nil, st)
+			if *st != "" {
+				return acc
+			}
+			acc = append(acc, refElement(o.tag, c)...)
+		}
+	}
+	return acc
+}
+
+func execB(f []string) (out zv.Out) {
+	var toks []string
+	if f[2] != "-" {
+		toks = strings.Split(f[2], ",")
+	}
+	prog, _ := parseSeq(toks)
+	km := map[string]bool{}
+	kinds(prog, km)
+	tags := []string{"bw", fmt.Sprintf("depth=%d", depth(prog))}
+	for k := range km {
+		tags = append(tags, "bw:"+k)
+	}
+	st := ""
+	want := hx(refB(prog, nil, &st))
+	switch st {
+	case "err":
+		want = "builderr"
+	case "panic":
+		want = "panic"
+	}
+	got := func() (g string) {
+		defer func() {
+			if r := recover(); r != nil {
+				g = "panic"
+			}
+		}()
+		var b cryptobyte.Builder
+		writeB(&b, prog)
+		o, err := b.Bytes()
+		if err != nil {
+			return "builderr"
+		}
+		return hx(o)
+	}()
+	tags = append(tags, "bw:"+map[string]string{"": "ok", "err": "builderr", "panic": "panic"}[st])
+	viol := ""
+	if got != want {
+		viol = fmt.Sprintf("Builder with Unwrite/SetError: got %s, the block reference gives %s", got, want)
+	}
+	return zv.Out{Go: got, Viol: viol, Tags: tags}
+}
+
+func genB(zg *zv.Gen) {
+	r := zv.NewRng(zg.Seed*0x9e3779b97f4a7c15 + 0xb21)
+	for _, l := range []string{"c21 bw - ", "c21 bw b:0102,uw:1", "c21 bw b:0102,uw:2", "c21 bw b:0102,uw:3", "c21 bw uw:0", "c21 bw uw:1",
+		"c21 bw b:01,p1[,uw:1,]", "c21 bw b:01,p1[,b:02,uw:1,]", "c21 bw b:01,p1[,b:02,uw:2,]", "c21 bw b:01,a48[,b:02,uw:2,]", "c21 bw a48[,b:0203,uw:1,],uw:3",
+		"c21 bw a48[,b:0203,],uw:5", "c21 bw p2[,b:02,],uw:3,b:07", "c21 bw se,uw:9", "c21 bw b:01,se,uw:1,b:02", "c21 bw p1[,se,uw:4,],uw:9",
+		"c21 bw p1[,p1[,uw:1,],]", "c21 bw a31[,uw:1,]", "c21 bw p1[,b:01,p1[,b:02,],uw:2,]", "c21 bw p1[,b:01,p1[,b:02,],uw:3,]", "c21 bw p1[,b:01,p1[,b:02,],uw:4,]"} {
+		zg.Emit(strings.TrimSpace(l))
+	}
+	// a block at the DER / prefix length boundaries shrunk back across them by Unwrite
+	for _, l := range []int{0x7f, 0x80, 0x81, 0xff, 0x100, 0x101} {
+		for _, u := range []int{0, 1, 2, l, l + 1} {
+			for _, w := range []string{"p1[", "p2[", "a48["} {
+				zg.Emitf("c21 bw b:aa,%s,b:%s,uw:%d,],b:bb", w, hx(r.Bytes(l)), u)
+			}
+		}
+	}
+	var seq func(n, depth int) []string
+	seq = func(n, depth int) []string {
+		var out []string
+		for i := 0; i < n; i++ {
+			switch k := r.Intn(10); {
+			case k < 4:
+				out = append(out, "b:"+hx(r.Bytes(r.Intn(4))))
+			case k < 7:
+				out = append(out, fmt.Sprintf("uw:%d", r.Intn(5)))
+			case k == 7 && r.Chance(20):
+				out = append(out, "se")
+			case depth > 0:
+				if r.Bool() {
+					out = append(out, fmt.Sprintf("p%d[", 1+r.Intn(4)))
+				} else {
+					out = append(out, fmt.Sprintf("a%d[", []int{0x30, 0x04, 0xa0, 0x1f}[r.Intn(4)*r.Intn(2)*r.Intn(2)]))
+				}
+				out = append(out, seq(r.Intn(4), depth-1)...)
+				out = append(out, "]")
+			default:
+				out = append(out, "b:"+hx(r.Bytes(1+r.Intn(3))))
+			}
+		}
+		return out
+	}
+	for i, n := 0, zg.N(4000, 300000); i < n; i++ {
+		zg.Emitf("c21 bw %s", strings.Join(seq(1+r.Intn(5), 1+r.Intn(3)), ","))
+	}
+}
+
 func exec(line string) zv.Out {
 	f := strings.Fields(line)
+	if f[1] == "bw" {
+		if len(f) < 3 {
+			f = append(f, "-")
+		}
+		return execB(f)
+	}
 	var toks []string
 	if f[2] != "-" {
 		toks = strings.Split(f[2], ",")
@@ -871,8 +1187,8 @@ func (g *gen) seq(n, depth int) []string {
 	r := g.r
 	var out []string
 	for i := 0; i < n; i++ {
-		k := r.Intn(30)
-		if depth <= 0 && k >= 22 && k <= 26 {
+		k := r.Intn(36)
+		if depth <= 0 && (k >= 22 && k <= 26 || k == 33) {
 			k = r.Intn(22)
 		}
 		switch k {
@@ -950,6 +1266,28 @@ func (g *gen) seq(n, depth int) []string {
 			} else {
 				out = append(out, "t")
 			}
+		case 28:
+			out = append(out, []string{"sk:", "cp:"}[r.Intn(2)]+hx(r.Bytes(g.blen())))
+		case 29, 30:
+			out = append(out, fmt.Sprintf("%s%d:%s", []string{"el", "an", "ae", "ks", "ko"}[r.Intn(5)], g.tag(), hx(r.Bytes(g.blen()))))
+		case 31:
+			out = append(out, fmt.Sprintf("kn%d", g.tag()))
+		case 32:
+			out = append(out, "bb:"+hx(r.Bytes(g.blen())))
+		case 33:
+			if r.Chance(12) {
+				out = append(out, "vf[")
+			} else {
+				out = append(out, "v[")
+			}
+			out = append(out, g.seq(r.Intn(4), depth-1)...)
+			out = append(out, "]")
+		case 34:
+			if r.Chance(15) {
+				out = append(out, "se")
+			} else {
+				out = append(out, "z")
+			}
 		default:
 			out = append(out, fmt.Sprintf("u8:%d", []int{0, 1, 2, 4, 5, 0x30, 0xa0, 0xff}[r.Intn(8)]))
 		}
@@ -966,6 +1304,11 @@ func emit(g *zv.Gen, toks []string, tail []byte) {
 }
 
 func genAll(zg *zv.Gen) {
+	genRW(zg)
+	genB(zg)
+}
+
+func genRW(zg *zv.Gen) {
 	r := zg.Rng
 	// corpus: D1 (optional BOOLEAN followed by data), D28 (OID arcs >= 2^28), boundaries
 	for _, l := range []string{
@@ -982,7 +1325,9 @@ func genAll(zg *zv.Gen) {
 	// exhaustive: every sequence of <= 2 (quick) / 3 (thorough) ops over a small alphabet, x {no tail, tail}
 	alpha := [][]string{{"u8:1"}, {"u16:258"}, {"b:0102"}, {"i:-129"}, {"u:128"}, {"t"}, {"f"}, {"z"}, {"o:1.2.840"}, {"s:aa"},
 		{"ob:t:f"}, {"ob:f:t"}, {"nb:t"}, {"oi160:5:7"}, {"ni160:7"}, {"os161:bb"}, {"ns161"}, {"na162"}, {"oa162[", "t", "]"},
-		{"p1[", "u8:1", "]"}, {"a48[", "f", "]"}, {"p2[", "]"}, {"a160[", "i:5", "]"}, {"p4[", "z", "]"}}
+		{"p1[", "u8:1", "]"}, {"a48[", "f", "]"}, {"p2[", "]"}, {"a160[", "i:5", "]"}, {"p4[", "z", "]"},
+		{"sk:0101"}, {"cp:a0"}, {"el48:0101ff"}, {"an160:0500"}, {"ae4:-"}, {"ks162:01"}, {"ko162:a2"}, {"kn162"}, {"bb:0180"},
+		{"se"}, {"v[", "t", "kn1", "]"}, {"vf[", "u8:1", "]"}, {"p1[", "u8:5", "se", "]"}, {"a48[", "vf[", "]", "z", "]"}}
 	maxl := zg.N(2, 3)
 	var rec func(prefix []string, n int)
 	rec = func(prefix []string, n int) {
@@ -1097,5 +1442,5 @@ func genAll(zg *zv.Gen) {
 
 func init() {
 	zv.Register(&zv.Prop{ID: "C21", Topic: "c21", Gen: genAll, Exec: exec,
-		Rule: "write/read programs over the cryptobyte Builder/String API: every sequence of <= 2 (quick) / 3 (thorough) ops over a 24-op alphabet with and without trailing data; every kind of block (8/16/24/32-bit length prefixes - the 32-bit one read back with ReadUint32+ReadBytes -, ASN.1 elements) at the length boundaries 0/1/0x7f/0x80/0xff/0x100/0xffff/0x10000 followed by data; random programs of <= 12 ops, nesting <= 4, with boundary integers, OID arcs up to 2^31-1, big integers up to 40 bytes, optional elements present/absent followed by other data, tails of 0..4 bytes; a case is one program+tail; every run of <= 3 (quick) / 4 (thorough) consecutive optional fields (present/absent, 14-op alphabet) alone, followed by data and inside a SEQUENCE; every program is read back four times: with every out-parameter of every reader pre-set to a non-default value (flags true, integers 0xa5.., slices/Strings/big.Int/OID/BitString/time non-empty), zero-initialised, with one shared variable per type reused for the whole program (optional INTEGERs into *big.Int), and with outPresent == nil; T3 = in all four the mirrored readers succeed, return the written values (absent optional: present=false / the default / a nil slice), leave exactly the tail and do not modify the input (programs whose build fails, and absent optionals followed by an equal tag byte, are counted trivial); GeneralizedTime programs (model-compared): years -1/0/9999/10000 and the seconds around them, leap days, zone offsets of whole minutes up to 24h59 and 25h, alone / followed by data / nested / twice; zone offsets with seconds or of 25 hours and more are outside the round-trip domain (the text form has no zone seconds: the reader rejects or returns a shifted instant; time.Parse refuses a zone hour above 24) - such programs are compared with the model only and tagged gtime:zone-with-seconds-or->=25h"})
+		Rule: "write/read programs over the cryptobyte Builder/String API: every sequence of <= 2 (quick) / 3 (thorough) ops over a 38-op alphabet (incl. the alternative readers Skip/CopyBytes/ReadASN1Element/ReadAnyASN1/ReadAnyASN1Element/SkipASN1/SkipOptionalASN1/ReadASN1BitStringAsBytes, SetError, AddValue with a succeeding and a failing Marshal) with and without trailing data; every kind of block (8/16/24/32-bit length prefixes - the 32-bit one read back with ReadUint32+ReadBytes -, ASN.1 elements) at the length boundaries 0/1/0x7f/0x80/0xff/0x100/0xffff/0x10000 followed by data; random programs of <= 12 ops, nesting <= 4, with boundary integers, OID arcs up to 2^31-1, big integers up to 40 bytes, optional elements present/absent followed by other data, tails of 0..4 bytes; a case is one program+tail; every run of <= 3 (quick) / 4 (thorough) consecutive optional fields (present/absent, 14-op alphabet) alone, followed by data and inside a SEQUENCE; every program is read back four times: with every out-parameter of every reader pre-set to a non-default value (flags true, integers 0xa5.., slices/Strings/big.Int/OID/BitString/time non-empty), zero-initialised, with one shared variable per type reused for the whole program (optional INTEGERs into *big.Int), and with outPresent == nil; T3 = in all four the mirrored readers succeed, return the written values (absent optional: present=false / the default / a nil slice), leave exactly the tail and do not modify the input (programs whose build fails, and absent optionals followed by an equal tag byte, are counted trivial); GeneralizedTime programs (model-compared): years -1/0/9999/10000 and the seconds around them, leap days, zone offsets of whole minutes up to 24h59 and 25h, alone / followed by data / nested / twice; zone offsets with seconds or of 25 hours and more are outside the round-trip domain (the text form has no zone seconds: the reader rejects or returns a shifted instant; time.Parse refuses a zone hour above 24) - such programs are compared with the model only and tagged gtime:zone-with-seconds-or->=25h; builder-only programs (`c21 bw`): AddBytes / Unwrite / SetError / 8..32-bit and ASN.1 blocks, nesting <= 3, blocks shrunk back across the 0x7f/0x80/0xff/0x100 length boundaries by Unwrite, Unwrite reaching into the length prefix or the parent (documented panic); T3 = an independent block-accumulating reference gives the same bytes / error / panic"})
 }
